@@ -958,7 +958,18 @@ func (x *Exec) execCall(fr *Frame, st *State, instr ssa.Instruction, c *ssa.Call
 	if callee == nil && spec == nil && !c.IsInvoke() && strings.HasPrefix(key, "func-value") {
 		x.atCallClauses(fr, st, "funcvalue")
 	}
+	if fr.root && fr.spec != nil && len(fr.spec.AtCalls) > 0 {
+		// the callee's parameter names denote the arguments inside at-call clauses
+		x.atCallArgs = map[string]Val{}
+		names := x.paramNames(spec, callee, c)
+		for i, a := range x.callArgValues(c) {
+			if i < len(names) {
+				x.atCallArgs[names[i]] = x.val(fr, a)
+			}
+		}
+	}
 	x.atCallOrdinary(fr, st, key)
+	x.atCallArgs = nil
 	if strings.HasSuffix(key, "/search.NewExplanation") && fr.root {
 		x.checkExplanationMessage(fr, st, instr, c)
 	}
